@@ -205,6 +205,9 @@ theorem parseToken_core (S : Sem V) (t0 t : Tok) (opd : List V) (opt : List Tok)
     by_cases hb : isBeginParen t = true
     · have he := begin_not_end hb
       simp only [hb, he, if_true, Bool.false_eq_true, if_false]
+      cases hpf : applyPostfix S t opd1 with
+      | none => exact ⟨by simp, by intro _ _ h; cases h⟩
+      | some o =>
       refine ⟨by simp, ?_⟩
       intro opd' opt' heq
       simp only [Outcome.ok.injEq, Prod.mk.injEq] at heq
@@ -220,6 +223,10 @@ theorem parseToken_core (S : Sem V) (t0 t : Tok) (opd : List V) (opt : List Tok)
         | err => exact ⟨by simp, by intro _ _ h; cases h⟩
         | ok r2 =>
           obtain ⟨opt2, opd2⟩ := r2
+          simp only
+          cases hpf : applyPostfix S t opd2 with
+          | none => exact ⟨by simp, by intro _ _ h; cases h⟩
+          | some o =>
           refine ⟨by simp, ?_⟩
           intro opd' opt' heq
           simp only [Outcome.ok.injEq, Prod.mk.injEq] at heq
@@ -228,6 +235,9 @@ theorem parseToken_core (S : Sem V) (t0 t : Tok) (opd : List V) (opt : List Tok)
           simp [depthAfter, hb', he]; omega
       · have he' : isEndParen t = false := by simpa using he
         simp only [he', Bool.false_eq_true, if_false]
+        cases hpf : applyPostfix S t opd1 with
+        | none => exact ⟨by simp, by intro _ _ h; cases h⟩
+        | some o =>
         refine ⟨by simp, ?_⟩
         intro opd' opt' heq
         simp only [Outcome.ok.injEq, Prod.mk.injEq] at heq
